@@ -70,8 +70,8 @@ class StandardRequestHandler(ControlRequestHandler):
 
         # ...but the block handler does not. In this case, first we split the descriptors into two
         # collections: fixed descriptors (for the ROM) and runtime descriptors.
-        fixed_descriptors       = DeviceDescriptorCollection()
-        runtime_descriptors     = DeviceDescriptorCollection()
+        fixed_descriptors       = DeviceDescriptorCollection(automatic_language_descriptor=False)
+        runtime_descriptors     = DeviceDescriptorCollection(automatic_language_descriptor=False)
         has_runtime_descriptors = False
         for type_number, index, descriptor in self.descriptors:
             if isinstance(descriptor, bytes):
